@@ -26,7 +26,7 @@ def setup(quiet: bool = True) -> str:
     if _done:
         return _done
     tree = repo_path()
-    link_dir = tempfile.mkdtemp(prefix='cpppo-verif-')
+    link_dir = tempfile.mkdtemp(prefix='cpppo-verif-', dir=os.environ.get('VERIF_TMP') or None)
     os.symlink(tree, os.path.join(link_dir, 'cpppo'))
     atexit.register(shutil.rmtree, link_dir, True)
     sys.path.insert(0, link_dir)
